@@ -374,7 +374,14 @@ func (eval RingPackingEvaluator) repack(cts map[int]*Ciphertext, naive bool) (ct
 
 		for j := 0; j < t; j++ {
 
-			if ctsLargeN[j] != nil || ctsLargeN[j+1] != nil {
+			if ctsLargeN[j] != nil || ctsLargeN[j+t] != nil {
+
+				// Merge requires its even operand: when only the odd class is populated,
+				// the even operand is the trivial encryption of zero.
+				if ctsLargeN[j] == nil {
+					ctsLargeN[j] = NewCiphertext(eval.Parameters[logNMax-i-1], 1, level)
+					*ctsLargeN[j].MetaData = *ctsLargeN[j+t].MetaData
+				}
 
 				ctN := NewCiphertext(eval.Parameters[logNMax-i], 1, level)
 
